@@ -66,6 +66,22 @@ def be(buf, off, n):
     return Lin.atom(at) if at is not None else None
 
 
+def bears_ext(d, W, kind):
+    """does the packet of world W carry header extensions?  Decided by the packet itself - the first protocol-type field
+    (bytes 2..4 of a complete packet, 5..7 of a first fragment) is below 0x600 - not by which helper the receiver happens to
+    call: True / False when the store decides it, None otherwise; intermediate and end packets have no such field"""
+    if kind not in (0, 1):
+        return False
+    pt = be(d.arg('buffer'), 2 if kind == 0 else 5, 2)
+    if pt is None:
+        return None
+    if W.store.entails(le(Lin.c(0x600), pt)):
+        return False
+    if W.store.entails(lt(pt, Lin.c(0x600))):
+        return True
+    return None
+
+
 def reader_complete_rules(ck, d, P):
     """reader side of the complete packet: windows, metadata, consumed length, reject paths"""
     f = ck.facts
@@ -89,7 +105,7 @@ def reader_complete_rules(ck, d, P):
         if lt_ is None:
             ck.finding(f'{P}.R1', r.site[0], 'partition', 'decap_complete: label type unknown at the payload copy', r.site)
             continue
-        if ghost(W, 'ext') is not None:
+        if bears_ext(d, W, 0) is not False:
             continue        # extension-bearing packet: C13
         ncopy += 1
         L = LABEL_LEN[lt_]
@@ -119,7 +135,7 @@ def reader_complete_rules(ck, d, P):
                     if sv != v_completed:
                         ck.finding(f'{P}.R5', DEC + 'decap_complete', f"status:{sv}", 'a complete packet yields a status other than CompletedPkt')
                         continue
-                    if ghost(w, 'ext') is not None:
+                    if bears_ext(d, w, 0) is not False:
                         continue
                     nok += 1
                     ck.obligations += 3
@@ -147,7 +163,7 @@ def reader_complete_rules(ck, d, P):
                         ck.finding(f'{P}.R5', DEC + 'decap_complete', f"metadata:{lt_}", f"decap_complete ({lt_} label): delivered metadata are not (G-L-2, be16(packet[2..4)), label of the packet)")
                     ck.sample({'reader': 'complete', 'label type': lt_, 'pdu_len': (gse - L - 2).pretty(), 'consumed': 'G+2'})
             else:
-                if lt_ == 'ReUse' or ghost(w, 'ext') is not None:
+                if lt_ == 'ReUse' or bears_ext(d, w, 0) is True:
                     continue
                 names = [f.variant_name(DERR, x) for x, _ in tup[1][0][1]] if tup[1][0][0] == 'enum' else ['?']
                 for nm in names:
@@ -186,7 +202,7 @@ def writer_guard_rules(ck, P):
         single = rv[0] == 'enum' and len(rv[1]) == 1 and rv[1][0][0] == reuse
         arg_single = arg[0] == 'enum' and len(arg[1]) == 1 and arg[1][0][0] == reuse
         w.mem[('G', 'subst')] = ('enum', ((1 if (single and not arg_single) else 0, ()),))
-    nret = 0
+    nret = nrej = 0
     for lv in f.adts['label::Label']['variants']:
         def fix_label(I, w, args, body, _v=lv['idx']):
             i = param_index(body, 'metadata')
@@ -217,7 +233,25 @@ def writer_guard_rules(ck, P):
                 ck.discharged += 1
             else:
                 ck.finding(f'{P}.R3', ENC + 'encap', f"complete-guard:{lv['name']}:{Lw}:{'ok' if oks else 'err'}", f"encap ({lv['name']} label): {what}")
+            # R7: a call is refused for its size only when the size is the reason: ErrorPduLength needs a total length above
+            # 65535, ErrorSizeBuffer a buffer below the 13 bytes that always hold a first-fragment header (C02: "every PDU that
+            # fits the 16-bit total length", "buffers of 13 bytes or more")
+            E = set(errs)
+            if E and not oks and E <= {'ErrorPduLength', 'ErrorSizeBuffer'}:
+                nrej += 1
+                ck.obligations += 1
+                neg = []
+                if 'ErrorPduLength' in E:
+                    neg.append(le(Pn + 2 + Lw, Lin.c(65535)))
+                if 'ErrorSizeBuffer' in E:
+                    neg.append(le(Lin.c(13), B))
+                if w.store.satisfiable_with(*neg):
+                    ck.finding(f'{P}.R7', ENC + 'encap', f"spurious-size-reject:{lv['name']}:{Lw}:{'+'.join(sorted(E))}",
+                               f"encap ({lv['name']} label, {Lw} label bytes written) can answer {' / '.join(sorted(E))} for a PDU whose total length fits 16 bits" + (' and a buffer of 13 bytes or more' if 'ErrorSizeBuffer' in E else ''))
+                else:
+                    ck.discharged += 1
     ck.rule(f'{P}.R3 returns of encap examined against the completeness guard', nret, 20)
+    ck.rule(f'{P}.R7 size rejections of encap examined (ErrorPduLength / ErrorSizeBuffer)', nrej, 4)
 
 
 def label_table_rules(ck, P):
